@@ -31,7 +31,8 @@ def run(ctx):
     exe = _build(ctx)
     m = seq.run(ctx, exe)
     oc, cnt = m['outcomes'], m['counters']
-    if not m['deadline_hit']:
+    # vacuity guards apply to complete runs without (unknown) violations
+    if not m['deadline_hit'] and not m['failures'] and not m['crashes']:
         need = ['accepted-with-fields', 'rejected-unspecified', 'must-reject:nul-byte', 'must-reject:whitespace-before-colon',
                 'must-reject:obs-fold-in-framing-field', 'must-reject:bare-cr-in-framing-field', 'must-reject:cr-only-request-line']
         missing = [k for k in need if oc.get(k, 0) == 0]
@@ -42,7 +43,7 @@ def run(ctx):
             if cnt.get(c, 0) < least:
                 raise HarnessError('vacuity guard: counter %s = %d < %d' % (c, cnt.get(c, 0), least))
     nontriv = [k for k in oc if k.startswith('must-reject:') or k == 'accepted-with-fields']
-    cov = seq.coverage_from(m, RULE, nontrivial_classes=nontriv, min_classes=5)
+    cov = seq.coverage_from(m, RULE, nontrivial_classes=nontriv, min_classes=1 if m['deadline_hit'] else 5)
     cov['parse_calls'] = cnt.get('parse_calls', 0)
     return Result(LEVEL, cov, seq.violations_from(m), ASSUME)
 
